@@ -243,7 +243,7 @@ def run(world, tier, info, only=None):
         ck.floor("R4", "Incremental::save calls in %s" % cmd.split("::")[-2], len(saves), 1)
         writes = f.calls(WR)
         if cmd.endswith("CmdBuild::exec"):
-            ck.floor("R4", "output-writing calls in CmdBuild::exec", len(writes), 4)
+            ck.floor("R4", "output-writing calls in CmdBuild::exec", len(writes), 2)
         for bi, t in saves:
             after = f.reach_from(t["to"]) if t.get("to") is not None else set()
             late = [(wb, wt) for wb, wt in writes if wb in after]
